@@ -75,6 +75,14 @@ def run(prop: str, contracts: list[Contract], lemmas: list[Lemma], z3_ms: int | 
 			jobs.append((txt, ob.want, z3_ms, cvc5_ms))
 	t1 = time.time()
 	results = discharge_many(jobs)
+	# obligations left open are retried once, one at a time, with tripled budgets: a timeout under full load must not flip a verdict
+	for i, (ob, res) in enumerate(zip(eng.obligations, results)):
+		if ob.expect == 'proved' and res.verdict == 'unknown':
+			from .smt import discharge_text
+			r2 = discharge_text(texts[i], ob.want, (z3_ms or 10000) * 3, (cvc5_ms or 20000) * 3)
+			r2.seconds += res.seconds
+			r2.tried = res.tried + ['retry'] + r2.tried
+			results[i] = r2
 	rep.solve_seconds = time.time() - t1
 	for ob, res, txt in zip(eng.obligations, results, texts):
 		if ob.expect == 'proved':
